@@ -6,7 +6,7 @@ PROP = dict(
     theorems=["filename_injective", "filename_no_reserved", "filename_digits_in_table",
               "persist_transparent", "kern_file_injective"],
     prelude="Require Import FV.C14.Model.\nFrom Coq Require Import List NArith ZArith QArith Bool.",
-    harness_args=lambda tier, seed: ["c14", "--seed", str(seed), "--n", str(N[tier])],
+    harness_args=lambda tier, seed: ["--seed", str(seed), "--n", str(N[tier])],
     rule="names drawn from adversarial classes (device names, case pairs, reserved characters, multi-byte "
          "characters, escape look-alikes, glyph-like) plus every single-letter case flip; kerning location "
          "pairs (half of them closer than 0.012). A case is non-trivial when the name is non-empty / the two "
